@@ -5,9 +5,51 @@ import os
 import shutil
 import time
 
+import build
 import common
 import farm
 from farm import Found  # noqa: F401  (re-exported)
+
+TOOLS = {}       # name -> path of the private copy
+TOOL_ENV = {}    # environment additions needed to run the copies (LD_LIBRARY_PATH)
+
+
+def snapshot_tools(tag, variant="plain", scanner=False):
+    """Build the current tree (build.ensure) and copy the generators + the shared libraries they load into a private
+    directory, under the build lock: other checks / the harness rebuild the shared build directory concurrently, and a
+    tool that is being relinked while a case runs would look like a crash or like non-determinism."""
+    build.ensure(variant)
+    sc = build.ensure_scanner(variant) if scanner else None
+    d = common.scratch(tag + "-tools")
+    os.makedirs(os.path.join(d, "bin"))
+    os.makedirs(os.path.join(d, "lib"))
+    b = build.bdir(variant)
+    lk = build._lock("build-" + variant)
+    try:
+        for n in ("exp2cxx", "exp2python", "exppp", "check-express"):
+            shutil.copy2(os.path.join(b, "bin", n), os.path.join(d, "bin", n))
+            TOOLS[n] = os.path.join(d, "bin", n)
+        for n in os.listdir(os.path.join(b, "lib")):
+            if n.startswith(("libexpress.so", "libexppp.so")):
+                shutil.copy2(os.path.join(b, "lib", n), os.path.join(d, "lib", n))
+    finally:
+        lk.close()
+    if sc:
+        lk = build._lock("scanner-" + variant)
+        try:
+            shutil.copy2(sc, os.path.join(d, "bin", "schema_scanner"))
+            TOOLS["schema_scanner"] = os.path.join(d, "bin", "schema_scanner")
+        finally:
+            lk.close()
+    TOOL_ENV.clear()
+    TOOL_ENV["LD_LIBRARY_PATH"] = os.path.join(d, "lib")
+    return d
+
+
+def tool_env(base=None):
+    e = dict(os.environ if base is None else base)
+    e.update(TOOL_ENV)
+    return e
 
 
 class Ctx:
@@ -19,19 +61,26 @@ class Ctx:
         self.wd = wd
         self.n = 0
         self.state = {}
+        self.reported = set()
 
     def tag(self):
         self.n += 1
         return "w%dc%d" % (self.idx, self.n)
 
     def known(self, sig):
+        """True if a failing case with this root-cause signature must not be raised: it is an open finding (counted), or
+        this worker has already reported and minimised one (counted as class, exploration continues for other causes)."""
         k = self.findings.match(self.prop, sig)
         if k:
             self.ev.known_hit(k["id"])
             return True
+        if sig in self.reported:
+            self.ev.bump("further-failing-case-of-reported-violation:" + str(sig)[:60])
+            return True
         return False
 
 
+MAX_ROUNDS = 4       # explorations per worker: after a violation the worker goes on with that signature muted
 SHRINK_BUDGET = 45   # seconds of minimisation per worker after its first failing case
 
 
@@ -80,9 +129,17 @@ def run(prop, level, rule, tier, seed, make_strategy, case_fn, confirm_fn, repla
         wd = os.path.join(root, "w%02d" % i)
         os.makedirs(wd, exist_ok=True)
         ctx = Ctx(prop, level, tier, common.sub_seed(seed, prop, "worker", i), rule, wd, i, fpath)
-        found = farm.explore(_budgeted(lambda x: case_fn(ctx, x)), make_strategy(ctx), n_examples, ctx.seed)
+        founds = []
+        for rnd in range(MAX_ROUNDS):
+            found = farm.explore(_budgeted(lambda x: case_fn(ctx, x)), make_strategy(ctx), n_examples,
+                                 common.sub_seed(ctx.seed, "round", rnd))
+            if not found:
+                break
+            # keep exploring (for other root causes and for complete evidence) with this signature muted
+            founds.append(found)
+            ctx.reported.add(found.get("sig"))
         shutil.rmtree(wd, ignore_errors=True)
-        return {"ev": ctx.ev.partial(), "found": found, "idx": i}
+        return {"ev": ctx.ev.partial(), "found": founds, "idx": i}
 
     results = common.pmap(common.guarded(worker), list(range(workers)), workers)
     rc = 0
@@ -93,8 +150,7 @@ def run(prop, level, rule, tier, seed, make_strategy, case_fn, confirm_fn, repla
             rc = 3
             continue
         ev.merge(res["ev"])
-        if res["found"]:
-            founds.append(res["found"])
+        founds += res["found"]
     if extra_cases:
         founds += extra_cases(ev, root) or []
     seen_sigs = set()
